@@ -13,7 +13,7 @@
    bytes_ok bs says that bs is a byte string (every element < 256).
    Hashes and signatures are computed over the decoded fields by the real code
    in the harness (c09): equal fields => equal hash / signature verdict. *)
-From Saito Require Import Base Bytes BytesProofs Codec CodecProofs CodecMsgProofs.
+From Saito Require Import Base Bytes BytesProofs Codec CodecProofs CodecMsgProofs CodecSigProofs TextCodec TextCodecProofs.
 
 (* ---------------- Slip (59 bytes) ---------------- *)
 Theorem C09_slip_decode_encode : forall s, wf_slip s = true -> decode_slip (encode_slip s) = Ok s.
@@ -190,6 +190,158 @@ Theorem C09_wallet_canonical_prefix : forall bs w,
   decode_wallet bs = Ok w -> slice 0 65 bs = Some (encode_wallet w).
 Proof. exact wallet_canonical_prefix. Qed.
 
+(* ---------------- UTXO-set key (Slip::get_utxoset_key / parse_slip_from_utxokey) ---------------- *)
+Theorem C09_utxokey_decode_encode : forall s,
+  wf_slip s = true -> decode_utxokey (encode_utxokey s) = Ok s.
+Proof. exact utxokey_decode_encode. Qed.
+
+Theorem C09_utxokey_size : forall s, wf_slip s = true -> Nlen (encode_utxokey s) = 59.
+Proof. exact utxokey_size. Qed.
+
+Theorem C09_utxokey_canonical : forall key s,
+  bytes_ok key = true -> Nlen key = 59 -> decode_utxokey key = Ok s -> encode_utxokey s = key.
+Proof. exact utxokey_canonical. Qed.
+
+(* the key is a [u8;59]: the parser cannot panic on it *)
+Theorem C09_utxokey_total : forall key site, Nlen key = 59 -> decode_utxokey key <> Panic site.
+Proof. exact utxokey_total. Qed.
+
+(* the key identifies the slip: owner, location, amount, type *)
+Theorem C09_utxokey_injective : forall s1 s2,
+  wf_slip s1 = true -> wf_slip s2 = true -> encode_utxokey s1 = encode_utxokey s2 -> s1 = s2.
+Proof. exact utxokey_injective. Qed.
+
+(* ---------------- the signed bytes (what hash and signature cover) ---------------- *)
+(* Slip::serialize_input_for_signature = serialize_output_for_signature (43 bytes):
+   owner, amount, slip index, type -- and nothing else *)
+Theorem C09_sig_slip_injective : forall s1 s2,
+  wf_slip s1 = true -> wf_slip s2 = true ->
+  sig_bytes_slip s1 = sig_bytes_slip s2 -> slip_signed_view s1 = slip_signed_view s2.
+Proof. exact sig_slip_injective. Qed.
+
+(* NOT covered: block id and transaction ordinal, i.e. WHICH output an input
+   spends (listed finding input-location-unsigned, C06; replayed-signature-other-output, C01):
+   two slips with different UTXO keys and the same signed bytes *)
+Theorem C09_sig_slip_location_not_covered :
+  exists s1 s2, wf_slip s1 = true /\ wf_slip s2 = true /\ s1 <> s2
+    /\ s_block_id s1 <> s_block_id s2 /\ s_tx_ordinal s1 <> s_tx_ordinal s2
+    /\ sig_bytes_slip s1 = sig_bytes_slip s2 /\ encode_utxokey s1 <> encode_utxokey s2.
+Proof. exact sig_slip_location_not_covered. Qed.
+
+(* Transaction::serialize_for_signature: given the numbers of inputs and outputs
+   the signed bytes determine timestamp, the signed view of every input and output
+   in order, replacement count, type and payload *)
+Theorem C09_sig_tx_injective : forall t1 t2,
+  wf_tx t1 = true -> wf_tx t2 = true ->
+  Nlen (t_from t1) = Nlen (t_from t2) -> Nlen (t_to t1) = Nlen (t_to t2) ->
+  sig_bytes_tx t1 = sig_bytes_tx t2 ->
+  t_ts t1 = t_ts t2
+  /\ map slip_signed_view (t_from t1) = map slip_signed_view (t_from t2)
+  /\ map slip_signed_view (t_to t1) = map slip_signed_view (t_to t2)
+  /\ t_repl t1 = t_repl t2 /\ t_type t1 = t_type t2 /\ t_data t1 = t_data t2.
+Proof. exact sig_tx_injective. Qed.
+
+(* what the signed bytes determine WITHOUT knowing the split: the timestamp always;
+   given the total number of slips, the signed view of the sequence from ++ to,
+   the replacement count, the type and the payload *)
+Theorem C09_sig_tx_ts_determined : forall t1 t2,
+  wf_tx t1 = true -> wf_tx t2 = true -> sig_bytes_tx t1 = sig_bytes_tx t2 -> t_ts t1 = t_ts t2.
+Proof. exact sig_tx_ts_determined. Qed.
+
+Theorem C09_sig_tx_injective_total : forall t1 t2,
+  wf_tx t1 = true -> wf_tx t2 = true ->
+  Nlen (t_from t1) + Nlen (t_to t1) = Nlen (t_from t2) + Nlen (t_to t2) ->
+  sig_bytes_tx t1 = sig_bytes_tx t2 ->
+  t_ts t1 = t_ts t2
+  /\ map slip_signed_view (t_from t1 ++ t_to t1) = map slip_signed_view (t_from t2 ++ t_to t2)
+  /\ t_repl t1 = t_repl t2 /\ t_type t1 = t_type t2 /\ t_data t1 = t_data t2.
+Proof. exact sig_tx_injective_total. Qed.
+
+(* full statement  [sig_bytes_tx t1 = sig_bytes_tx t2 -> (from, to) agree on their signed
+   views]  is false: from=[a], to=[b;c] and from=[a;b'], to=[c] have the same signed
+   bytes (same hash_for_signature, same signature), different fee *)
+Theorem C09_sig_tx_resplit_refuted :
+  exists t1 t2, wf_tx t1 = true /\ wf_tx t2 = true /\ sig_bytes_tx t1 = sig_bytes_tx t2
+    /\ t_from t1 <> t_from t2 /\ t_to t1 <> t_to t2 /\ encode_tx t1 <> encode_tx t2
+    /\ map slip_signed_view (t_from t1 ++ t_to t1) = map slip_signed_view (t_from t2 ++ t_to t2).
+Proof. exact sig_tx_resplit_refuted. Qed.
+
+(* nor is the total determined: slip bytes can be read as (replacements, type, payload) *)
+Theorem C09_sig_tx_data_boundary_not_covered :
+  exists t1 t2, wf_tx t1 = true /\ wf_tx t2 = true
+    /\ sig_bytes_tx t1 = sig_bytes_tx t2
+    /\ Nlen (t_from t1) + Nlen (t_to t1) <> Nlen (t_from t2) + Nlen (t_to t2)
+    /\ t_data t1 <> t_data t2.
+Proof. exact sig_tx_data_boundary_not_covered. Qed.
+
+Theorem C09_sig_tx_size : forall t, wf_tx t = true ->
+  Nlen (sig_bytes_tx t) = 16 + SIG_SLIP_SIZE * (Nlen (t_from t) + Nlen (t_to t)) + Nlen (t_data t).
+Proof. exact sig_tx_size. Qed.
+
+(* NOT covered by the signed bytes of a transaction (besides signature and path):
+   the location of its inputs ... *)
+Theorem C09_sig_tx_location_not_covered :
+  exists t1 t2, wf_tx t1 = true /\ wf_tx t2 = true /\ encode_tx t1 <> encode_tx t2
+    /\ sig_bytes_tx t1 = sig_bytes_tx t2
+    /\ map s_block_id (t_from t1) <> map s_block_id (t_from t2).
+Proof. exact sig_tx_location_not_covered. Qed.
+
+(* ... and the boundary between inputs and outputs (no counts are written): the
+   hypothesis on the counts in C09_sig_tx_injective cannot be dropped *)
+Theorem C09_sig_tx_boundary_not_covered :
+  exists t1 t2, wf_tx t1 = true /\ wf_tx t2 = true
+    /\ sig_bytes_tx t1 = sig_bytes_tx t2
+    /\ Nlen (t_from t1) <> Nlen (t_from t2) /\ Nlen (t_to t1) <> Nlen (t_to t2).
+Proof. exact sig_tx_boundary_not_covered. Qed.
+
+(* the wire encodings bind every field *)
+Theorem C09_tx_wire_injective : forall t1 t2,
+  wf_tx t1 = true -> wf_tx t2 = true -> encode_tx t1 = encode_tx t2 -> t1 = t2.
+Proof. exact tx_wire_injective. Qed.
+
+(* identity across the wire: same signed bytes, hence same hash_for_signature /
+   pre_hash / hash and the same signature verdict, for any hash function *)
+Theorem C09_tx_signed_bytes_preserved : forall t d,
+  wf_tx t = true -> decode_tx (encode_tx t) = Ok d -> sig_bytes_tx d = sig_bytes_tx t.
+Proof. exact tx_signed_bytes_preserved. Qed.
+
+Theorem C09_block_signed_bytes_preserved : forall bt b d,
+  wf_block b = true -> decode_block (encode_block bt b) = Ok d ->
+  sig_bytes_block d = sig_bytes_block b /\ b_sig d = b_sig b /\ block_nums d = block_nums b.
+Proof. exact block_signed_bytes_preserved. Qed.
+
+(* lite blocks (Block::generate_lite_block copies the header, replaces the
+   transactions; sent as serialize_for_net(Full)): the receiver sees the full
+   block's header figures, creator and signature, and -- when the merkle root over
+   the placeholders is the full block's (property C18) -- its signed bytes *)
+Theorem C09_lite_block_wire : forall b txs m d,
+  wf_block b = true -> forallb wf_tx txs = true -> Nlen txs <? two32 = true -> arr_ok 32 m = true ->
+  decode_block (encode_block BT_FULL (lite_block_of b txs m)) = Ok d ->
+  block_nums d = block_nums b /\ b_sig d = b_sig b /\ b_creator d = b_creator b /\ b_prev d = b_prev b
+  /\ b_merkle d = m /\ (m = b_merkle b -> sig_bytes_block d = sig_bytes_block b).
+Proof. exact lite_block_wire. Qed.
+
+(* ---------------- balance snapshot text format (util/balance_snapshot.rs) ---------------- *)
+(* decimal integers as printed by to_string / {:?} and read by str::parse *)
+Theorem C09_decimal_round_trip : forall bound x,
+  x < bound -> bound <= two64 -> dec_parse bound (dec_enc x) = Some x.
+Proof. exact dec_parse_enc. Qed.
+
+Theorem C09_hex_round_trip : forall l, bytes_ok l = true -> hex_dec (hex_enc l) = Some l.
+Proof. exact hex_dec_enc. Qed.
+
+(* a row "<base58 key> <block id> <tx ordinal> <slip index> <amount>" (the base58
+   column is an opaque text without blanks) *)
+Theorem C09_snapshot_row_round_trip : forall r,
+  wf_snap_row r = true -> parse_row (print_row r) = Some r.
+Proof. exact snapshot_row_round_trip. Qed.
+
+(* the file name "<timestamp>-<latest block id>-<hex(latest block hash)>.snap" *)
+Theorem C09_snapshot_name_round_trip : forall ts id hash,
+  ts < two64 -> id < two64 -> arr_ok 32 hash = true ->
+  parse_snap_name (print_snap_name ts id hash) = Some (ts, id, hash).
+Proof. exact snapshot_name_round_trip. Qed.
+
 (* ---------------- non-vacuity ---------------- *)
 (* a well-formed transaction with two inputs of distinct types, an output, a
    payload and a hop; a block carrying it, through every BlockType; a message *)
@@ -214,3 +366,8 @@ Print Assumptions C09_block_decode_encode.
 Print Assumptions C09_message_decode_encode.
 Print Assumptions C09_hs_response_decode_encode.
 Print Assumptions C09_ghost_decode_encode.
+Print Assumptions C09_utxokey_injective.
+Print Assumptions C09_sig_tx_injective.
+Print Assumptions C09_lite_block_wire.
+Print Assumptions C09_snapshot_row_round_trip.
+Print Assumptions C09_snapshot_name_round_trip.
